@@ -60,7 +60,8 @@ F_big == { Big(k) : k \in {200, 1000, 1100, 4100, 16300, 16340, 16400} }
 NameOfLen(k) == IF k <= 63 THEN <<Rep(113, k)>> ELSE IF k <= 127 THEN <<Rep(113, 63), Rep(114, k - 64)>> ELSE IF k <= 191 THEN <<Rep(113, 63), Rep(114, 63), Rep(115, k - 128)>>
                 ELSE <<Rep(113, 63), Rep(114, 63), Rep(115, 63), Rep(116, k - 192)>>
 PadLens == ((1..70) \cup (120..135) \cup {190, 191, 193, 250, 251, 252, 253}) \ {64, 128, 192}    \* presentation lengths (dots included) without empty labels
-F_pad == { M(<<Q(NameOfLen(k), 65, 1)>>, <<>>, <<>>, ar) : k \in PadLens,
+\* ... and the two ends of the label-count range: the root name (no label) and 127 labels
+F_pad == { M(<<Q(nm, 65, 1)>>, <<>>, <<>>, ar) : nm \in {NameOfLen(k) : k \in PadLens} \cup {nRoot, n127},
              ar \in { <<>>, <<Opt(<<>>, <<0, 0, 0, 0>>)>>, <<Opt(<<O(12, Rep(0, 5))>>, <<0, 0, 0, 0>>)>>, <<Opt(<<O(10, Rep(7, 8))>>, <<0, 0, 0, 0>>)>>, <<ARec(nA, 1), Opt(<<O(12, <<>>), O(3, <<120>>)>>, <<0, 0, 0, 0>>)>> } }
 
 Emit == PrintT(<<"CASE", ToJson([m |-> m, bytes |-> EncMsg(m), cbytes |-> EncMsgC(m), ext |-> ExtRcode(m)])>>)
